@@ -452,6 +452,7 @@ def h_amax(m, func, args, kwargs, out):
             res[idx] = group[0]
             continue
         mv = m.ctx.max_atom(keys, float(realr[idx]))
+        m.ctx.__dict__.setdefault("max_groups", {})[mv] = list(group)
         res[idx] = Val("lin", mv)
     if keep:
         shp = [1 if i in dims else a.shape[i] for i in range(a.ndim)]
